@@ -545,3 +545,7 @@ CHECKS = [
                "Write.output_directory, the file a Cache creates) equals the reference fold of what encloses and precedes it and equals its observation in the tree truncated after it; exported context / LenaKeyError naming a missing key; "
                "probe flow through the tree shows static keys only where UpdateContextFromStatic / MakeFilename put them. Non-trivial = a consumer followed by later elements, a Split, or an unresolvable key."),
 ]
+
+
+from .. import covfuzz  # noqa
+CHECKS.append(covfuzz.check(CHECKS, "harness.props.c13", "trees", quick=800, thorough=80000))
